@@ -97,6 +97,8 @@ impl AtomicUsize {
         ensures r == old(self).v, final(self).v == old(self).v - n
     { let r = self.v; self.v = self.v - n; r }
     pub fn load(&self, o: Ordering) -> (r: usize) ensures r == self.v { self.v }
+    pub fn store(&mut self, v: usize, o: Ordering) ensures final(self).v == v { self.v = v; }
+    pub fn swap(&mut self, v: usize, o: Ordering) -> (r: usize) ensures r == old(self).v, final(self).v == v { let r = self.v; self.v = v; r }
 }
 
 impl AtomicIsize {
@@ -110,6 +112,7 @@ impl AtomicIsize {
         ensures r == old(self).v, final(self).v == old(self).v - n
     { let r = self.v; self.v = self.v - n; r }
     pub fn load(&self, o: Ordering) -> (r: isize) ensures r == self.v { self.v }
+    pub fn store(&mut self, v: isize, o: Ordering) ensures final(self).v == v { self.v = v; }
 }
 
 // ---- std::sync::Mutex (R1: `.lock().unwrap()` = `lock_()` + direct access to `data`; poisoning dropped, A6) ----
